@@ -34,7 +34,7 @@ Qed.
 (* what the API calls leave alone *)
 Definition same_kernel (s s' : st) : Prop :=
   pos s' = pos s /\ oracle s' = oracle s /\ ipc s' = ipc s /\ partial s' = partial s /\
-  nalloc s' = nalloc s /\ ncb s' = ncb s.
+  nalloc s' = nalloc s /\ ncb s' = ncb s /\ is_pipe s' = is_pipe s.
 
 Lemma same_kernel_refl s : same_kernel s s.
 Proof. repeat split. Qed.
@@ -173,7 +173,7 @@ Proof.
       dcall H tok Hr. destruct H as (Hp & Hk & Hd).
       assert (Hpos : 0 <? nread = true) by (unfold nread; lia).
       rewrite Hpos in Hd.
-      destruct (nread <? b_len b); simp_tr; fold (kernel evs) (delivered evs);
+      destruct (nread <? b_len b); [destruct (is_pipe sx)|]; simp_tr; fold (kernel evs) (delivered evs);
         rewrite Hk, Hd; (split; [reflexivity|]); cbn; cbn in Hp; repeat split; lia.
 Qed.
 
@@ -286,15 +286,15 @@ Proof.
     rewrite bytes_split by lia. reflexivity.
 Qed.
 
-Theorem stream_exact : forall (A : Type) (peer : Z -> A) E is_ipc o ops,
-  let '(s', tr) := exec E (init is_ipc o) ops in
+Theorem stream_exact : forall (A : Type) (peer : Z -> A) E pipe is_ipc o ops,
+  let '(s', tr) := exec E (init pipe is_ipc o) ops in
   delivered tr = kernel tr /\
   chain 0 (kernel tr) (pos s') /\
   flat_map (bytes peer) (delivered tr) = bytes peer (0, pos s').
 Proof.
-  intros A peer E is_ipc o ops.
-  pose proof (exec_exact E (init is_ipc o) ops) as H.
-  destruct (exec E (init is_ipc o) ops) as [s' tr]. destruct H as [Hd Hch].
+  intros A peer E pipe is_ipc o ops.
+  pose proof (exec_exact E (init pipe is_ipc o) ops) as H.
+  destruct (exec E (init pipe is_ipc o) ops) as [s' tr]. destruct H as [Hd Hch].
   cbn in Hch. split; [assumption|]. split; [assumption|].
   rewrite Hd. apply (chain_bytes peer) in Hch. destruct Hch as [_ ->].
   replace (pos s' - 0) with (pos s') by lia. reflexivity.
@@ -639,14 +639,14 @@ Qed.
 
 Definition monA0 : monA := mkA None true false.
 
-Lemma init_RelA is_ipc o : RelA true (init is_ipc o) monA0.
+Lemma init_RelA pipe is_ipc o : RelA true (init pipe is_ipc o) monA0.
 Proof. unfold RelA, Inv; cbn. repeat split; auto; discriminate. Qed.
 
-Theorem monitor_accepts E is_ipc o ops :
-  exists m', runA monA0 (snd (exec E (init is_ipc o) ops)) = Some m' /\ a_out m' = None /\
-             Inv (fst (exec E (init is_ipc o) ops)).
+Theorem monitor_accepts E pipe is_ipc o ops :
+  exists m', runA monA0 (snd (exec E (init pipe is_ipc o) ops)) = Some m' /\ a_out m' = None /\
+             Inv (fst (exec E (init pipe is_ipc o) ops)).
 Proof.
-  destruct (exec_A E (init is_ipc o) monA0 ops (init_RelA is_ipc o)) as (m' & Hr & HI & Ho & _).
+  destruct (exec_A E (init pipe is_ipc o) monA0 ops (init_RelA pipe is_ipc o)) as (m' & Hr & HI & Ho & _).
   exists m'. split; [assumption|split; assumption].
 Qed.
 
@@ -715,30 +715,30 @@ Proof.
   intros [He|Hin]; [subst e; cbn in Hs; discriminate|]. exact (IH m1 m' H Hin).
 Qed.
 
-Theorem alloc_paired E is_ipc o ops :
-  paired None (snd (exec E (init is_ipc o) ops)) = true.
+Theorem alloc_paired E pipe is_ipc o ops :
+  paired None (snd (exec E (init pipe is_ipc o) ops)) = true.
 Proof.
-  destruct (monitor_accepts E is_ipc o ops) as (m' & Hr & Ho & _).
+  destruct (monitor_accepts E pipe is_ipc o ops) as (m' & Hr & Ho & _).
   exact (runA_paired _ monA0 m' Hr Ho).
 Qed.
 
-Theorem silent_until_restart E is_ipc o ops :
-  silent true false (snd (exec E (init is_ipc o) ops)) = true.
+Theorem silent_until_restart E pipe is_ipc o ops :
+  silent true false (snd (exec E (init pipe is_ipc o) ops)) = true.
 Proof.
-  destruct (monitor_accepts E is_ipc o ops) as (m' & Hr & _).
+  destruct (monitor_accepts E pipe is_ipc o ops) as (m' & Hr & _).
   exact (runA_silent _ monA0 m' Hr).
 Qed.
 
-Theorem no_null_callback E is_ipc o ops :
-  ~ In ECrash (snd (exec E (init is_ipc o) ops)).
+Theorem no_null_callback E pipe is_ipc o ops :
+  ~ In ECrash (snd (exec E (init pipe is_ipc o) ops)).
 Proof.
-  destruct (monitor_accepts E is_ipc o ops) as (m' & Hr & _).
+  destruct (monitor_accepts E pipe is_ipc o ops) as (m' & Hr & _).
   exact (runA_no_crash _ monA0 m' Hr).
 Qed.
 
-Theorem state_invariant E is_ipc o ops :
-  Inv (fst (exec E (init is_ipc o) ops)).
-Proof. destruct (monitor_accepts E is_ipc o ops) as (m' & _ & _ & HI). exact HI. Qed.
+Theorem state_invariant E pipe is_ipc o ops :
+  Inv (fst (exec E (init pipe is_ipc o) ops)).
+Proof. destruct (monitor_accepts E pipe is_ipc o ops) as (m' & _ & _ & HI). exact HI. Qed.
 
 (* what [silent] means for UV_EOF: two UV_EOF callbacks are separated by a
    successful uv_read_start *)
@@ -765,14 +765,14 @@ Proof.
     apply Z.eqb_eq in Hc. subst. left. reflexivity.
 Qed.
 
-Theorem eof_once E is_ipc o ops :
+Theorem eof_once E pipe is_ipc o ops :
   forall pre mid post t1 b1 o1 l1 t2 n2 b2 o2 l2,
-  snd (exec E (init is_ipc o) ops) =
+  snd (exec E (init pipe is_ipc o) ops) =
     pre ++ ERead t1 UV_EOF b1 o1 l1 :: mid ++ ERead t2 n2 b2 o2 l2 :: post ->
   In (ERet 0 0) mid.
 Proof.
   intros pre mid post t1 b1 o1 l1 t2 n2 b2 o2 l2 Htr.
-  pose proof (silent_until_restart E is_ipc o ops) as H. rewrite Htr in H.
+  pose proof (silent_until_restart E pipe is_ipc o ops) as H. rewrite Htr in H.
   apply silent_suffix in H. destruct H as (q' & d' & H). cbn in H.
   apply andb_true_iff in H. destruct H as [_ H].
   eapply silent_needs_start. exact H.
@@ -1081,9 +1081,9 @@ Proof.
     + exact (IH _ He2 Hk2 pre post tok buf off len eq_refl).
 Qed.
 
-Theorem eof_once_after_data E is_ipc o ops :
+Theorem eof_once_after_data E pipe is_ipc o ops :
   Forall errno_ok o ->
-  let tr := snd (exec E (init is_ipc o) ops) in
+  let tr := snd (exec E (init pipe is_ipc o) ops) in
   kernel_ok true monB0 tr -> eof_after_all_data tr.
 Proof.
   intros Ho tr Hk. apply (eof_ok_data true tr monB0); [|assumption].
@@ -1152,15 +1152,15 @@ Proof.
   replace (0 <? len) with true by (symmetry; apply Z.ltb_lt; assumption). reflexivity.
 Qed.
 
-Theorem monitor_model E is_ipc o ops :
-  monitor (snd (exec E (init is_ipc o) ops)) = (true, true, true, true).
+Theorem monitor_model E pipe is_ipc o ops :
+  monitor (snd (exec E (init pipe is_ipc o) ops)) = (true, true, true, true).
 Proof.
   unfold monitor.
-  pose proof (stream_exact unit (fun _ => tt) E is_ipc o ops) as H.
-  pose proof (alloc_paired E is_ipc o ops) as Hp.
-  pose proof (silent_until_restart E is_ipc o ops) as Hs.
-  pose proof (no_null_callback E is_ipc o ops) as Hc.
-  destruct (exec E (init is_ipc o) ops) as [s' tr]; cbn [snd] in *.
+  pose proof (stream_exact unit (fun _ => tt) E pipe is_ipc o ops) as H.
+  pose proof (alloc_paired E pipe is_ipc o ops) as Hp.
+  pose proof (silent_until_restart E pipe is_ipc o ops) as Hs.
+  pose proof (no_null_callback E pipe is_ipc o ops) as Hc.
+  destruct (exec E (init pipe is_ipc o) ops) as [s' tr]; cbn [snd] in *.
   destruct H as (Hd & Hch & _).
   assert (He : exact_b tr = true).
   { unfold exact_b. rewrite Hd, chunks_eqb_refl, (chain_chain_b _ _ _ Hch). reflexivity. }
